@@ -4,7 +4,7 @@
    v1 (model of the repaired pipe.py / BufferedPipe.feed, atomic actions = critical sections):
    positive theorems over all interleavings of any number of operations.
    v0 (the code before the repair, one action per source line): refutation witnesses. *)
-From PV Require Import Bytes C24 C24_proofs.
+From PV Require Import Bytes C24 C24_gen C24_proofs.
 Open Scope Z_scope.
 
 (* From the state Channel.fileno() leaves (any buffer contents d1 d2, EOF/closed or not),
@@ -18,6 +18,12 @@ Theorem C24_quiescent_iff :
     (readable s = true <-> ne1 s = true \/ ne2 s = true \/ ch s = true).
 Proof. exact quiescent_iff. Qed.
 Print Assumptions C24_quiescent_iff.
+
+(* the lock discipline and event-call sites C24_quiescent_iff rests on are those of the current source:
+   gen_shape is produced by the fail-closed AST translator gen/c24.py on every run *)
+Theorem C24_source_shape : gen_shape = assumed_shape.
+Proof. exact shape_ok. Qed.
+Print Assumptions C24_source_shape.
 
 (* the inductive core: the invariant is preserved by every atomic action from every state *)
 Theorem C24_invariant_step :
